@@ -398,6 +398,16 @@ def run_case(case):
                     except Exception as exc:
                         kinds.add(type(exc).__name__)
                 if res[1] in kinds:
+                    # the assignment itself stands: the value is held and registered as assigned by the user
+                    try:
+                        c_ = real.ctx(tup(op[1])).cells[op[2]]
+                        kept = c_._impl.data.get(tuple(target[2]), "<gone>")
+                        isin = c_.is_input(*target[2])
+                    except Exception as exc:
+                        kept, isin = "<%r>" % (exc,), None
+                    if kept != op[4] or isin is not True:
+                        return out.fail("assigned-value-after-failed-recalc", "%r: recomputing a dependent failed (%s); the "
+                                        "assigned value reads %r, is_input %r" % (op, res[1], kept, isin), i)
                     out.discard = True
                     return out
                 return out.fail("recalc-raised", "%r with recalc on raised %s; recomputing the dependents fails with %r "
